@@ -923,6 +923,232 @@ theorem simulateMinute_keeps_pre (fuel : Nat) (e : Engine M) (sym : Nat) (real :
       obtain ⟨hp4, hcfg4⟩ := checkLiquidation_keeps_pre u _ sym real t0 real.ts P hal3 hp3
       exact ⟨hp4, by rw [hcfg4]; exact hcfg1⟩
 
+/-- the liquidation check leaves the stored 1m rows as they are (its publish step rewrites the last row with itself) -/
+theorem checkLiquidation_short (e : Engine M) (sym : Nat) (c : Candle) (t0 ts : Int) (P : List Candle)
+    (hal : AlignedCfg e.cfg sym t0) (hp : EPre e sym t0 ts P) :
+    (storeOf (checkLiquidation u e sym c) sym).short = (storeOf e sym).short := by
+  unfold checkLiquidation
+  dsimp only
+  have hfail : ∀ (x : Engine M) (k : Err), StoreFrame.SSame e x → (storeOf (fail x k) sym).short = (storeOf e sym).short := by
+    intro x k hx
+    have h2 := StoreFrame.SSame.trans hx (StoreFrame.fail_ss x k)
+    unfold storeOf; rw [h2.1]
+  have htail : ∀ (e2 : Engine M) (id : Nat) (last : Candle), StoreFrame.SSame e e2 →
+      (storeOf e2 sym).short.getLast? = some last →
+      (storeOf (executeOrder u (updatePartialCandle e2 sym last) id) sym).short = (storeOf e sym).short := by
+    intro e2 id last hs1 hl
+    have hp2 : EPre e2 sym t0 ts P := EPre.of_same hs1 hp
+    have hal2 : AlignedCfg e2.cfg sym t0 := by rw [hs1.2]; exact hal
+    obtain ⟨r1, _, _⟩ := publish_establishes_inv e2 sym last last t0 hp2.hs hal2.1 hal2.2 hp2.spaced hl rfl hp2.pre
+    have hs4 := StoreFrame.executeOrder_ss u (updatePartialCandle e2 sym last) id
+    have h5 : storeOf (executeOrder u (updatePartialCandle e2 sym last) id) sym = storeOf (updatePartialCandle e2 sym last) sym := by
+      unfold storeOf; rw [hs4.1]
+    have h6 : storeOf e2 sym = storeOf e sym := by unfold storeOf; rw [hs1.1]
+    rw [h5, r1, ← h6]
+    exact List.dropLast_append_getLast? last (List.mem_of_getLast? hl |> fun _ => hl)
+  repeat' split
+  all_goals first
+    | (with_reducible rfl)
+    | (rename_i w' h _ last hl
+       exact htail _ _ last ⟨rfl, rfl⟩ hl)
+    | (exact hfail _ _ ⟨rfl, rfl⟩)
+
+/-- at the end of a minute's matching the symbol's stored 1m rows are the rows stored before the minute followed by the
+    WHOLE minute (unless the run has been stopped by an error) -/
+theorem simulateMinute_short (fuel : Nat) (e : Engine M) (sym : Nat) (real : Candle) (t0 : Int) (P : List Candle)
+    (hal : AlignedCfg e.cfg sym t0) (hp : EPre e sym t0 real.ts P) :
+    (storeOf (simulateMinute u fuel e sym real) sym).short = P ++ [real] ∨ (simulateMinute u fuel e sym real).err.isSome := by
+  unfold simulateMinute
+  dsimp only
+  split
+  · right; assumption
+  · have h := matchLoop_keeps_pre u fuel e sym real
+      ((fun (e : Engine M) (c : Candle) => if (executingOrders e sym c).length > 1 then sortExecutionOrders e (executingOrders e sym c) [c] else executingOrders e sym c) e real)
+      (fun (e : Engine M) (c : Candle) => if (executingOrders e sym c).length > 1 then sortExecutionOrders e (executingOrders e sym c) [c] else executingOrders e sym c) false t0 P hal hp
+    revert h
+    generalize matchLoop u fuel e sym real _ _ false = p
+    intro h
+    obtain ⟨e1, c'⟩ := p
+    dsimp only at h ⊢
+    obtain ⟨hp1, hcfg1⟩ := h
+    split
+    · right; assumption
+    · left
+      have hal1 : AlignedCfg e1.cfg sym t0 := by rw [hcfg1]; exact hal
+      have hp2 := replace_last_keeps_pre e1 sym real t0 real.ts P hal1 hp1 rfl
+      have hs3 : StoreFrame.SSame (addCandle e1 sym 1 real) (setCurrentPrice (addCandle e1 sym 1 real) sym real.c) := ⟨rfl, rfl⟩
+      have hp3 := EPre.of_same hs3 hp2
+      have hal3 : AlignedCfg (setCurrentPrice (addCandle e1 sym 1 real) sym real.c).cfg sym t0 := hal1
+      rw [checkLiquidation_short u (setCurrentPrice (addCandle e1 sym 1 real) sym real.c) sym real t0 real.ts P hal3 hp3]
+      -- the rows after REPLACE LAST with the whole minute
+      obtain ⟨l, hl, _⟩ := hp3.last
+      have hst3 : storeOf (setCurrentPrice (addCandle e1 sym 1 real) sym real.c) sym = storeOf (addCandle e1 sym 1 real) sym := rfl
+      have hd := hp3.pfx
+      rw [hst3] at hd hl ⊢
+      have hst := StoreFrame.storeOf_addCandle e1 sym 1 real hp1.hs
+      simp only [if_true] at hst
+      -- the last row is `real`: REPLACE LAST wrote it
+      obtain ⟨l1, hl1, hl1ts⟩ := hp1.last
+      have hadd : Store.addCandle (storeOf e1 sym).short real = (storeOf e1 sym).short.dropLast ++ [real] := by
+        unfold Store.addCandle
+        have hne : (storeOf e1 sym).short ≠ [] := by intro h0; rw [h0] at hl1; simp at hl1
+        have hpos : 0 < (storeOf e1 sym).short.length := List.length_pos_iff.mpr hne
+        have hl1e : l1 = (storeOf e1 sym).short[(storeOf e1 sym).short.length - 1] := by
+          rw [List.getLast?_eq_getElem?, List.getElem?_eq_getElem (by omega)] at hl1
+          injection hl1 with h; exact h.symm
+        have hlts' : l1.ts = t0 + 60000 * (((storeOf e1 sym).short.length - 1 : Nat) : Int) := by
+          rw [hl1e]; exact hp1.spaced _ (by omega)
+        have hr0 : ¬ real.ts = 0 := by
+          rw [← hl1ts, hlts']
+          have : (0 : Int) ≤ (((storeOf e1 sym).short.length - 1 : Nat) : Int) := Int.natCast_nonneg _
+          have := hal.1; omega
+        have hngt : ¬ real.ts > real.ts := lt_irrefl _
+        simp only [hr0, if_false, hl1, hl1ts, hngt, if_true]
+      rw [hst, hadd, hp1.pfx]
+
+/-! ### a whole iteration of the normal simulator for one symbol: `StoreInv` from iteration to iteration
+
+`EInv e sym t0 rows`: between iterations the symbol's stored minutes are exactly `rows` (evenly spaced from `t0`) and
+every bigger timeframe satisfies `StoreInv`.  One iteration — NEW MINUTE, the minute's matching with any number of
+fills, the liquidation check, CLOSE WINDOW for every timeframe whose window ends — leads from `EInv … rows` to
+`EInv … (rows ++ [the minute])`, for every strategy, unless the run was stopped by an error. -/
+
+structure EInv (e : Engine M) (sym : Nat) (t0 : Int) (rows : List Candle) : Prop where
+  hs : sym < e.stores.length
+  short : (storeOf e sym).short = rows
+  spaced : Spaced t0 rows
+  inv : ∀ m ∈ tfsRaw e.cfg sym, StoreInv m rows (longOf (storeOf e sym) m)
+
+/-- NEW MINUTE: storing the next minute of the session turns `EInv` into `EPre` -/
+theorem new_minute_gives_pre (e : Engine M) (sym : Nat) (c : Candle) (t0 : Int) (rows : List Candle)
+    (hal : AlignedCfg e.cfg sym t0) (hi : EInv e sym t0 rows) (hc : c.ts = t0 + 60000 * (rows.length : Int)) :
+    EPre (addCandle e sym 1 c) sym t0 c.ts rows := by
+  have hst := StoreFrame.storeOf_addCandle e sym 1 c hi.hs
+  simp only [if_true] at hst
+  have hc0 : ¬ c.ts = 0 := by
+    rw [hc]; have : (0 : Int) ≤ (rows.length : Int) := Int.natCast_nonneg _
+    have := hal.1; omega
+  have hadd : Store.addCandle (storeOf e sym).short c = rows ++ [c] := by
+    rw [hi.short]
+    unfold Store.addCandle
+    simp only [hc0, if_false]
+    cases hl : rows.getLast? with
+    | none => rfl
+    | some last =>
+      have hne : rows ≠ [] := by intro h0; rw [h0] at hl; simp at hl
+      have hpos : 0 < rows.length := List.length_pos_iff.mpr hne
+      have hle : last = rows[rows.length - 1] := by
+        rw [List.getLast?_eq_getElem?, List.getElem?_eq_getElem (by omega)] at hl
+        injection hl with h; exact h.symm
+      have hlts : last.ts = t0 + 60000 * ((rows.length - 1 : Nat) : Int) := by rw [hle]; exact hi.spaced _ (by omega)
+      have hgt : c.ts > last.ts := by
+        rw [hc, hlts]
+        have : ((rows.length - 1 : Nat) : Int) < (rows.length : Int) := by exact_mod_cast (by omega : rows.length - 1 < rows.length)
+        omega
+      simp only [hgt, if_true]
+  rw [hadd] at hst
+  refine ⟨by rw [StoreFrame.stores_length_addCandle]; exact hi.hs, ?_, ?_, ?_, ?_⟩
+  · rw [hst]; show (rows ++ [c]).dropLast = rows; rw [List.dropLast_concat]
+  · rw [hst]
+    intro j hj
+    show (rows ++ [c])[j].ts = _
+    by_cases hjl : j < rows.length
+    · rw [List.getElem_append_left hjl]; exact hi.spaced j hjl
+    · have hj2 : j < (rows ++ [c]).length := hj
+      have hj' : j = rows.length := by simp at hj2; omega
+      subst hj'
+      rw [List.getElem_append_right (by omega)]
+      simp [hc]
+  · rw [hst]; exact ⟨c, by simp, rfl⟩
+  · intro m hm
+    rw [hst]
+    have hm' : m ∈ tfsRaw e.cfg sym := hm
+    have := pre_of_new_minute m rows (longOf (storeOf e sym) m) c (hal.2 m hm').1 (hi.inv m hm')
+    exact this
+
+/-- with exactly `m` rows the complete-candle generator and the forming-candle generator agree -/
+theorem generate_complete_eq (m : Nat) (cs : List Candle) (h : cs.length = m) :
+    generateCandle m cs False = generate m cs := by
+  unfold generate generateCandle
+  have : lenR cs = natR m := by unfold lenR natR; rw [h]
+  simp [this]
+
+/-- `xs[a:b]` for `a ≤ b ≤ len(xs)` -/
+theorem slice_nat {α} (xs : List α) (a b : Nat) (hab : a ≤ b) (hb : b ≤ xs.length) :
+    Py.slice xs (some (a : Int)) (some (b : Int)) = (xs.take b).drop a := by
+  unfold Py.slice Py.startIdx Py.stopIdx Py.clampIdx
+  have ha0 : ¬ ((a : Int) < 0) := by omega
+  have hb0 : ¬ ((b : Int) < 0) := by omega
+  simp only [ha0, hb0, if_false, Int.toNat_natCast]
+  by_cases h1 : a < xs.length
+  · by_cases h2 : b < xs.length
+    · simp only [h1, h2, if_true]
+      rw [List.drop_take]
+    · have : b = xs.length := by omega
+      subst this
+      simp only [h1, if_true, lt_irrefl, if_false, List.take_length]
+      rw [List.take_of_length_le (by simp)]
+  · have hae : a = xs.length := by omega
+    have hbe : b = xs.length := by omega
+    subst hae
+    simp [hbe]
+
+/-- CLOSE WINDOW for one timeframe on a store whose 1m rows are `rows'` (`i + 1` of them, the first `i + 1` rows of the
+    normalised input `cs'`): the timeframe satisfies `StoreInv` afterwards — a completed window gets its candle, a forming
+    one needs none — the 1m rows and the other timeframes are untouched -/
+theorem close_step_inv (e : Engine M) (sym i tf : Nat) (cs' rows' : List Candle) (t0 : Int)
+    (hs : sym < e.stores.length) (htf : 0 < tf) (htf1 : tf ≠ 1) (ht0 : 0 < t0)
+    (hshort : (storeOf e sym).short = rows') (hlen : rows'.length = i + 1) (hcs : cs'.take (i + 1) = rows')
+    (hsp : Spaced t0 rows') (hpre : PreInv tf rows' (longOf (storeOf e sym) tf)) :
+    let e' := (if (i + 1) % tf = 0 then
+        match generateCandle tf (Py.slice cs' (some ((i : Int) - ((tf : Int) - 1))) (some ((i : Int) + 1))) False with
+        | .ok g => addCandle e sym tf g
+        | .error k => fail e k
+      else e)
+    sym < e'.stores.length ∧ (storeOf e' sym).short = rows' ∧ StoreInv tf rows' (longOf (storeOf e' sym) tf) ∧
+      (∀ m', m' ≠ tf → longOf (storeOf e' sym) m' = longOf (storeOf e sym) m') ∧ e'.cfg = e.cfg ∧
+      (e.err.isSome → e'.err.isSome) := by
+  have hne : rows' ≠ [] := by intro h; rw [h] at hlen; simp at hlen
+  by_cases hb : (i + 1) % tf = 0
+  · simp only [hb, if_true]
+    have hb' : rows'.length % tf = 0 := by rw [hlen]; exact hb
+    obtain ⟨hq, hfull⟩ := StoreProto.k0_of_boundary tf rows' htf hne hb'
+    have hk : StoreProto.k0 tf rows' * tf = i + 1 - tf := by
+      rw [hlen] at hfull
+      have : (StoreProto.k0 tf rows' + 1) * tf = StoreProto.k0 tf rows' * tf + tf := by rw [Nat.add_mul, Nat.one_mul]
+      omega
+    have htle : tf ≤ i + 1 := by
+      rw [hlen] at hfull
+      have : (StoreProto.k0 tf rows' + 1) * tf = StoreProto.k0 tf rows' * tf + tf := by rw [Nat.add_mul, Nat.one_mul]
+      omega
+    have hlencs : i + 1 ≤ cs'.length := by
+      have := congrArg List.length hcs
+      rw [List.length_take, hlen] at this; omega
+    have hsl : Py.slice cs' (some ((i : Int) - ((tf : Int) - 1))) (some ((i : Int) + 1)) = rows'.drop (StoreProto.k0 tf rows' * tf) := by
+      have e1 : ((i : Int) - ((tf : Int) - 1)) = ((i + 1 - tf : Nat) : Int) := by omega
+      have e2 : ((i : Int) + 1) = ((i + 1 : Nat) : Int) := by omega
+      rw [e1, e2, slice_nat cs' (i + 1 - tf) (i + 1) (by omega) hlencs, hcs, hk]
+    rw [hsl]
+    have hdl : (rows'.drop (StoreProto.k0 tf rows' * tf)).length = tf := by
+      rw [List.length_drop, hk, hlen]; omega
+    rw [generate_complete_eq tf _ hdl]
+    have hdne : rows'.drop (StoreProto.k0 tf rows' * tf) ≠ [] := by
+      intro h0; rw [h0] at hdl; simp at hdl; omega
+    obtain ⟨g, _, hagg, _, _⟩ := StoreProto.aggregate_some _ hdne
+    have hgen : generate tf (rows'.drop (StoreProto.k0 tf rows' * tf)) = .ok g := by rw [generate_is_aggregate, hagg]
+    rw [hgen]
+    simp only []
+    have hst := StoreFrame.storeOf_addCandle e sym tf g hs
+    simp only [htf1, if_false] at hst
+    refine ⟨by rw [StoreFrame.stores_length_addCandle]; exact hs, by rw [hst]; exact hshort, ?_, ?_, rfl, fun h => h⟩
+    · rw [hst, StoreFrame.longOf_setLong_same]
+      exact inv_of_window_candle tf rows' _ t0 g htf hne ht0 hsp hpre hgen
+    · intro m' hm'; rw [hst]; exact StoreFrame.longOf_setLong_other _ tf m' _ hm'
+  · simp only [hb, if_false]
+    have hb' : rows'.length % tf ≠ 0 := by rw [hlen]; exact hb
+    refine ⟨hs, hshort, inv_of_pre_forming tf rows' _ htf hb' hpre, ?_, ?_, ?_⟩
+    all_goals first | trivial | (intros; trivial) | (intros; rfl) | (intro h; exact h)
+
 end run
 
 end C07
